@@ -511,12 +511,12 @@ PROPS = {
                       "(resolve_single_instance), while without it two instances arise (resolve_double_load_pinned) and two instances lose "
                       "an acknowledged edit (two_instances_lose_edit). Regenerated on every run: every statement handing a loaded entity to "
                       "a mutating function sits inside the entity's lock (gen_entity_calls_locked) and Resolve looks again "
-                      "(gen_resolve_rechecks). Real goroutines on one cache are run against this. No call deadlocks, at the level of lock requests: for any number of goroutines and read-write mutexes with Go's semantics, when every blocked goroutine holds only mutexes smaller than the one it asks for, some goroutine can always step (deadlock_free); asking again for a read lock one holds, with a writer in between, blocks for ever (nested_rlock_deadlocks: the Query(nil) defect found and repaired); the lock order and the absence of nested acquisition are regenerated from the source (gen_lock_order).",
+                      "(gen_resolve_rechecks). Real goroutines on one cache are run against this. No call deadlocks, at the level of lock requests: for any number of goroutines and read-write mutexes with Go's semantics, when every blocked goroutine holds only mutexes smaller than the one it asks for, some goroutine can always step (deadlock_free); asking again for a read lock one holds, with a writer in between, blocks for ever (nested_rlock_deadlocks: the Query(nil) defect found and repaired); the lock order and the absence of nested acquisition are regenerated from the source (gen_lock_order). That runs only reach such configurations is proved as well: goroutines are straight-line programs of lock requests (Model/RWProg), a program is Safe when it asks only for mutexes above all it holds and releases what it took, and every schedule of any number of Safe programs keeps an invariant that yields the well-formedness deadlock_free assumes (Lemmas/RWProg: inv_init, inv_pstep, inv_run, inv_wf) - hence run_no_deadlock; the request sequences of the cache's calls are Safe (cache_calls_safe, safe_append), the nested read lock of the pinned Query(nil) is not and its run deadlocks (nested_program_deadlocks).",
         "level_note": "Trusted: Lean kernel, extractor, harness. The critical sections are modelled as atomic; that sync.RWMutex makes them so, "
                       "and that nothing outside them touches the entity, is what the extractor and the run check from outside. Eviction of an "
                       "instance a goroutine still holds is a known finding.",
         "required_theorems": ["locked_no_loss", "runLocked_perm", "runLocked_extends", "two_instances_lose_edit", "resolve_single_instance",
-                              "resolve_double_load_pinned", "gen_entity_calls_locked", "gen_resolve_rechecks", "deadlock_free", "nested_rlock_deadlocks", "gen_lock_order"],
+                              "resolve_double_load_pinned", "gen_entity_calls_locked", "gen_resolve_rechecks", "deadlock_free", "nested_rlock_deadlocks", "gen_lock_order", "run_no_deadlock", "run_respects_order", "cache_calls_safe", "safe_append", "nested_program_deadlocks"],
         "slices": ["C18"],
         "timeout": {"quick": 2400, "thorough": 7200},
         "rule": "one go-git repository and one RepoCache reopened so that nothing is loaded; 2..16 goroutines x GOMAXPROCS 1..16 x cache size "
